@@ -7,6 +7,7 @@ package c13
 
 import (
 	"bytes"
+	"errors"
 	"fmt"
 	"os"
 	"os/exec"
@@ -14,7 +15,9 @@ import (
 	"regexp"
 	"sort"
 	"strings"
+	"syscall"
 	"testing"
+	"time"
 
 	"pgregory.net/rapid"
 
@@ -95,7 +98,12 @@ type runResult struct {
 	inPhase     bool
 	traceLines  []string
 	destMissing bool
+	hung        bool // relic neither finished nor failed within runTimeout
 }
+
+var errHung = errors.New("relic did not exit")
+
+const runTimeout = 90 * time.Second
 
 var lineRe = regexp.MustCompile(`^(\d+)\s+([a-z0-9_]+)\(`)
 
@@ -121,8 +129,20 @@ func runOnce(dir string, sc scenario, preexist bool, inject string) (*runResult,
 	args = append(args, sc.Flags...)
 	cmd := exec.Command("strace", args...)
 	cmd.Dir = dir
-	_, err = cmd.CombinedOutput()
-	res := &runResult{exitErr: err}
+	cmd.SysProcAttr = &syscall.SysProcAttr{Setpgid: true}
+	done := make(chan error, 1)
+	if err = cmd.Start(); err == nil {
+		go func() { done <- cmd.Wait() }()
+		select {
+		case err = <-done:
+		case <-time.After(runTimeout):
+			// relic neither finished nor failed: no verdict can be drawn from this run
+			syscall.Kill(-cmd.Process.Pid, syscall.SIGKILL)
+			<-done
+			err = errHung
+		}
+	}
+	res := &runResult{exitErr: err, hung: err == errHung}
 	blob, _ := os.ReadFile(trace)
 	lines := strings.Split(string(blob), "\n")
 	res.traceLines = lines
@@ -135,7 +155,7 @@ func runOnce(dir string, sc scenario, preexist bool, inject string) (*runResult,
 		if m == nil {
 			continue
 		}
-		if strings.Contains(l, sc.Out+".tmp") && m[2] == "openat" {
+		if m[2] == "openat" && opensOutput(l, sc) && !tmpSeen {
 			if !strings.Contains(l, "<unfinished") || true {
 				// the temporary file's creation marks the start of the output phase; if the kill
 				// landed on this very call the file was not created
@@ -256,6 +276,15 @@ func check(sc scenario, preexist bool, syscallName string, k int) (string, *case
 	return "", cd
 }
 
+// opensOutput: does this openat line create or open for writing the destination or a
+// temporary sibling of it? That call marks the start of the output phase.
+func opensOutput(l string, sc scenario) bool {
+	if !strings.Contains(l, "/"+sc.Out) {
+		return false
+	}
+	return strings.Contains(l, "O_WRONLY") || strings.Contains(l, "O_RDWR") || strings.Contains(l, "O_CREAT")
+}
+
 // candidates: k values worth injecting for a syscall, from an uninjected reference run.
 func candidates(sc scenario, preexist bool) map[string][]int {
 	counter++
@@ -277,7 +306,7 @@ func candidates(sc scenario, preexist bool) map[string][]int {
 			perThread[pid] = map[string]int{}
 		}
 		perThread[pid][sc2]++
-		if strings.Contains(l, ".tmp") && sc2 == "openat" {
+		if sc2 == "openat" && opensOutput(l, sc) {
 			tmp = true
 		}
 		if tmp {
@@ -413,6 +442,113 @@ func TestC13_HandledError(t *testing.T) {
 			t.Fatalf("%s: input modified after a handled error", sc.Name)
 		}
 		os.RemoveAll(dir)
+	}
+}
+
+// TestC13_ErrorPoints: the k-th output-phase call fails with an error instead of killing
+// the process. relic must handle it: whatever the exit status, no temporary file remains
+// next to the output and the input is unchanged; if it exits 0 the destination is a
+// complete artefact.
+func TestC13_ErrorPoints(t *testing.T) {
+	thorough := evid.Thorough()
+	budget := evid.EnvInt("VERIF_C13_ERR_RUNS", 40)
+	errCalls := []string{"write", "pwrite64", "copy_file_range", "fchmod", "ftruncate", "renameat"}
+	errnos := map[string]string{"write": "ENOSPC", "pwrite64": "ENOSPC", "copy_file_range": "ENOSPC", "fchmod": "EPERM", "ftruncate": "EIO", "renameat": "EACCES"}
+	type pt struct {
+		sc   scenario
+		pre  bool
+		name string
+		k    int
+	}
+	var pts []pt
+	for _, sc := range scenarios {
+		for _, pre := range []bool{false, true} {
+			c := candidates(sc, pre)
+			for _, n := range errCalls {
+				for _, k := range c[n] {
+					pts = append(pts, pt{sc, pre, n, k})
+				}
+			}
+		}
+	}
+	rec.Set("error_injection_candidates", len(pts))
+	var hangs []string
+	defer func() {
+		rec.Set("error_points_where_relic_never_exited", hangs)
+		if len(hangs) > 0 && !t.Failed() {
+			// wall-clock waits decide nothing: report without a verdict
+			fmt.Printf("VERIF-INCONCLUSIVE: relic did not exit within %v after an injected error at: %v\n", runTimeout, hangs)
+			t.Fail()
+		}
+	}()
+	runOne := func(p pt) string {
+		counter++
+		dir := filepath.Join(workDir, fmt.Sprintf("e%d", counter))
+		os.Mkdir(dir, 0o755)
+		defer os.RemoveAll(dir)
+		src, _ := os.ReadFile("/repo/functest/packages/" + p.sc.Fixture)
+		res, in, out := runOnce(dir, p.sc, p.pre, fmt.Sprintf("%s:error=%s:when=%d", p.name, errnos[p.name], p.k))
+		if res.hung {
+			hangs = append(hangs, fmt.Sprintf("%s pre=%v %s#%d %s", p.sc.Name, p.pre, p.name, p.k, errnos[p.name]))
+			rec.Case(fmt.Sprintf("err|%s|%v|%s|%d", p.sc.Name, p.pre, p.name, p.k), "error-point/"+p.sc.Name+"/hung", true)
+			return ""
+		}
+		failed := res.exitErr != nil
+		injected := false
+		for _, l := range res.traceLines {
+			if strings.Contains(l, "(INJECTED)") {
+				injected = true
+			}
+		}
+		rec.Case(fmt.Sprintf("err|%s|%v|%s|%d", p.sc.Name, p.pre, p.name, p.k), fmt.Sprintf("error-point/%s/%s/failed=%v", p.sc.Name, p.name, failed), injected && res.inPhase)
+		if injected && failed {
+			rec.Sample("error-point/"+p.name, map[string]any{"scenario": p.sc.Name, "preexisting": p.pre, "syscall": p.name, "k": p.k, "errno": errnos[p.name], "relic_failed": failed})
+		}
+		desc := fmt.Sprintf("scenario %s, destination pre-existing=%v, %s #%d fails with %s (injected=%v, relic failed=%v)", p.sc.Name, p.pre, p.name, p.k, errnos[p.name], injected, failed)
+		ents, _ := os.ReadDir(dir)
+		for _, e := range ents {
+			if strings.Contains(e.Name(), ".tmp") {
+				return desc + ": temporary file " + e.Name() + " left next to the output after relic exited"
+			}
+		}
+		if now, _ := os.ReadFile(in); !bytes.Equal(now, src) {
+			return desc + ": input file modified"
+		}
+		if !failed {
+			if err := validate(p.sc, dir, in, out); err != nil && !strings.Contains(err.Error(), "CHECKSUM:") {
+				return desc + ": relic exited 0 but the destination is not a complete artefact: " + err.Error()
+			}
+		}
+		return ""
+	}
+	fail := func(msg string, p pt) {
+		evid.SaveCase("TestC13_ErrorPoints", map[string]any{"scenario": p.sc.Name, "preexisting": p.pre, "syscall": p.name, "k": p.k, "errno": errnos[p.name], "error": msg})
+		t.Fatal(msg)
+	}
+	if thorough {
+		for _, p := range pts {
+			if msg := runOne(p); msg != "" {
+				fail(msg, p)
+			}
+		}
+		return
+	}
+	runs := 0
+	violation := ""
+	var vp pt
+	rapid.Check(t, func(rt *rapid.T) {
+		if runs >= budget || violation != "" || len(pts) == 0 {
+			return
+		}
+		p := pts[rapid.IntRange(0, len(pts)-1).Draw(rt, "point")]
+		runs++
+		if msg := runOne(p); msg != "" {
+			violation, vp = msg, p
+		}
+	})
+	rec.Set("error_injected_runs", runs)
+	if violation != "" {
+		fail(violation, vp)
 	}
 }
 
